@@ -58,27 +58,34 @@ pub const C08_SIGS: &[(&str, &str, &str, &str)] = &[
     ("errctx-nested", "", "o: option<error-context>, l: list<error-context>", "result<u32, error-context>"),
 ];
 
-/// (variant, generator flags, shape). Shape `false`: the export is the world-level function `g`.
-/// Shape `true`: the export is `g`, a static function of resource `r` in the exported interface
-/// `e` (the canonical names of its `task.return`, callback and entry point carry the resource).
-pub const C08_VARIANTS: &[(&str, &[&str], bool)] = &[
-    ("ss", &[], false),
-    ("as", &["--async=import:f"], false),
-    ("sa", &["--async=export:g"], false),
-    ("aa", &["--async=import:f,export:g"], false),
-    ("ra", &["--async=export:verif:c08/e#[static]r.g"], true),
-    ("raa", &["--async=import:f,export:verif:c08/e#[static]r.g"], true),
+/// (variant, generator flags, shape). Shape 0: the export is the world-level function `g`.
+/// Shape 1: the export is `g`, a static function of resource `r` in the exported interface `e`
+/// (the canonical names of its `task.return`, callback and entry point carry the resource).
+/// Shape 2: `g` is a method of `r`: the host passes the representation of a live `r` first.
+pub const C08_VARIANTS: &[(&str, &[&str], u8)] = &[
+    ("ss", &[], 0),
+    ("as", &["--async=import:f"], 0),
+    ("sa", &["--async=export:g"], 0),
+    ("aa", &["--async=import:f,export:g"], 0),
+    ("ra", &["--async=export:verif:c08/e#[static]r.g"], 1),
+    ("raa", &["--async=import:f,export:verif:c08/e#[static]r.g"], 1),
+    ("ma", &["--async=export:verif:c08/e#[method]r.g"], 2),
+    ("maa", &["--async=import:f,export:verif:c08/e#[method]r.g"], 2),
 ];
 /// (import module, name) under which the export of a shape resolves its `task.return`
-pub fn c08_task_return(shape: bool) -> (&'static str, &'static str) {
-    if shape { ("[export]verif:c08/e", "[task-return][static]r.g") } else { ("[export]$root", "[task-return]g") }
+pub fn c08_task_return(shape: u8) -> (&'static str, &'static str) {
+    match shape {
+        0 => ("[export]$root", "[task-return]g"),
+        1 => ("[export]verif:c08/e", "[task-return][static]r.g"),
+        _ => ("[export]verif:c08/e", "[task-return][method]r.g"),
+    }
 }
 
 pub fn c08_wit(i: usize) -> String {
-    c08_wit_shape(i, false)
+    c08_wit_shape(i, 0)
 }
 
-pub fn c08_wit_shape(i: usize, shape: bool) -> String {
+pub fn c08_wit_shape(i: usize, shape: u8) -> String {
     let (_, decls, params, result) = C08_SIGS[i];
     let ret = if result.is_empty() { String::new() } else { format!(" -> {result}") };
     let uses: Vec<&str> = decls
@@ -93,8 +100,9 @@ pub fn c08_wit_shape(i: usize, shape: bool) -> String {
         })
         .collect();
     let use_line = if uses.is_empty() { String::new() } else { format!("  use t.{{{}}};\n", uses.join(", ")) };
-    if shape {
-        return format!("package verif:c08;\n\ninterface t {{\n  {decls}\n}}\n\ninterface e {{\n{use_line}  resource r {{\n    g: static func({params}){ret};\n  }}\n}}\n\nworld w {{\n  import t;\n{use_line}  import f: func({params}){ret};\n  export e;\n}}\n");
+    if shape != 0 {
+        let kind = if shape == 1 { "static func" } else { "func" };
+        return format!("package verif:c08;\n\ninterface t {{\n  {decls}\n}}\n\ninterface e {{\n{use_line}  resource r {{\n    g: {kind}({params}){ret};\n  }}\n}}\n\nworld w {{\n  import t;\n{use_line}  import f: func({params}){ret};\n  export e;\n}}\n");
     }
     format!("package verif:c08;\n\ninterface t {{\n  {decls}\n}}\n\nworld w {{\n  import t;\n{use_line}  import f: func({params}){ret};\n  export g: func({params}){ret};\n}}\n")
 }
